@@ -97,7 +97,7 @@ def run(ctx):
                                    source_around=want[max(0, k - 20):k + 20].decode("latin1")))
         # the model is evaluated on a bounded sample in the quick tier (reading long byte lists dominates coqc's time);
         # every input still goes through the round-trip oracle above
-        if "panic" not in lo and "crash" not in lo and len(d) <= ctx.budget(2500, 8000) and len(terms) < ctx.budget(350, 100000):
+        if "panic" not in lo and "crash" not in lo and len(d) <= ctx.budget(2500, 8000) and len(terms) < ctx.budget(350, 6000):
             terms.append(coq_lex_case(d, lo))
             meta.append((d, lo))
     ctx.extra["accepted_inputs"] = acc
